@@ -333,6 +333,12 @@ func runC05(c *report.Ctx) {
 
 	// ---- (4) premature wipes ------------------------------------------------------------------------------------------
 	ruleUseAfterWipe(c)
+
+	// ---- (5) the unlocked window ends with the signing call (also after an error in the middle of it) ---------------
+	ruleUnlockScoped(c)
+
+	// ---- (6) rows readable with the public passphrase hold public keys only -----------------------------------
+	rulePublicRowsHoldNeuteredKeys(c)
 }
 
 func rootBase(fa *ssa.FieldAddr) ssa.Value {
